@@ -48,7 +48,7 @@ SPEC = dict(
         _sweep('msg_sweep', 'msg', 700000, 2000, 300), _sweep('tmsg_sweep', 'tmsg', 500000, 2000, 300), _sweep('mini_sweep', 'mini', 700000, 2000, 300),
         _sweep('micro_sweep', 'micro', 700000, 2000, 300), _sweep('gw_sweep', 'gw', 900000, 1500, 300), _sweep('tgw_sweep', 'tgw', 900000, 1000, 200),
         _sweep('ws_sweep', 'ws', 600000, 1500, 300), _sweep('tunnel_sweep', 'tunnel', 900000, 1000, 200), _sweep('minitunnel_sweep', 'minitunnel', 600000, 1000, 200),
-        _sweep('cgw_sweep', 'cgw', 700000, 1500, 300), _sweep('text_sweep', 'text', 300000, 2000, 0), _sweep('raw_sweep', 'raw', 300000, 2000, 0), _sweep('slip_sweep', 'slip', 300000, 2000, 0), _sweep('zcodec_sweep', 'zcodec', 600000, 1500, 300),
+        _sweep('cgw_sweep', 'cgw', 700000, 1500, 300), _sweep('text_sweep', 'text', 300000, 2000, 0), _sweep('raw_sweep', 'raw', 450000, 2000, 0), _sweep('slip_sweep', 'slip', 520000, 2000, 0), _sweep('zcodec_sweep', 'zcodec', 1000000, 1500, 300),
     ],
     min_stats={
         'regress': {'regress_witnesses': 14, 'regress_post_failure_walks': 300, 'regress_F5_rejected': 1000, 'regress_micro_walks': 500},
